@@ -52,11 +52,14 @@ Fixpoint increasing (ts : list Q) : bool :=
   | _ => true
   end.
 
-Definition all_close (B : Q -> pt) (ts : list Q) (vs : list pt) : bool :=
-  forallb (fun '(t, v) => close (B t) v slack) (combine ts vs).
+(** "every vertex it introduces lies on the original curve (within t) in curve order": increasing parameters whose curve points are
+    within the tolerance of the vertices (the verified certificate asks for [slack]; this is the property's own allowance, under
+    which a vertex that steps back along the curve by less than the tolerance is still in order) *)
+Definition all_close (e : Q) (B : Q -> pt) (ts : list Q) (vs : list pt) : bool :=
+  forallb (fun '(t, v) => close (B t) v e) (combine ts vs).
 
 (** flags: 1 Go panicked / returned something that is not a finite polyline; 2 end points not preserved or
-    parameter list malformed; 4 a vertex is not on the curve (within slack) or vertices out of curve order;
+    parameter list malformed; 4 a vertex is not on the curve (within the tolerance) or vertices out of curve order;
     8 a piece deviates by more than K tol and the known trigger does not hold on it; 16 a piece deviates by more
     than K tol where the known trigger holds; 32 the verified checker rejected (any reason).
     Output: [flags; pieces; failing-known; failing-new; 10^6 * (max deviation bound / tol)^2] *)
@@ -66,7 +69,7 @@ Definition judge_bez (B d1 : Q -> pt) (pb : Q -> Q -> Q) (alt : Q -> Q -> bool) 
   if accepted then [0%Z; Z.of_nat (length ts - 1); 0%Z; 0%Z; 0%Z] else
   let '(n, k, f, m) := diag d1 pb alt (sqr (K * tol)) wit ts in
   let ends := negb (Nat.eqb (length ts) (length vs) && chk_ends (combine ts vs) a b) in
-  let onc := negb (all_close B ts vs && increasing ts) in
+  let onc := negb (all_close (slack + tol) B ts vs && increasing ts) in
   let only_alt := negb ends && negb onc && (f =? 0)%Z && (k =? 0)%Z in
   [ (bit ends 2 + bit onc 4 + bit (0 <? f)%Z 8 + bit (0 <? k)%Z 16 + bit (negb only_alt) 32 + bit only_alt 256)%Z; n; k; f; ratio_milli2 m tol ].
 
